@@ -290,10 +290,7 @@ func runSolverFile(solver string, file string, timeout time.Duration) (string, s
 
 func solveQueries(ex *Exec, qs []Query, dir string, timeout time.Duration, workers int, solver string, cross bool) []QResult {
 	res := make([]QResult, len(qs))
-	var wg sync.WaitGroup
-	sem := make(chan struct{}, workers)
-	// printing is not thread-safe w.r.t. the shared term table only if terms are created; printing
-	// creates none, so texts are built sequentially (cheap) and solved in parallel.
+	var pending []int
 	for i, q := range qs {
 		res[i] = QResult{Kind: q.kind, Label: q.label, Solver: solver}
 		if q.cond == FF {
@@ -315,45 +312,197 @@ func solveQueries(ex *Exec, qs []Query, dir string, timeout time.Duration, worke
 				continue
 			}
 		}
-		text := buildQueryText(ex.assumes, q.cond, false)
-		res[i].Nodes = strings.Count(text, "(declare-const n")
-		file := filepath.Join(dir, fmt.Sprintf("q%03d.smt2", i))
+		pending = append(pending, i)
+	}
+	if len(pending) == 0 {
+		return res
+	}
+	if workers < 1 {
+		workers = 1
+	}
+	nb := min(workers, len(pending))
+	batches := make([][]int, nb)
+	for k, i := range pending {
+		batches[k%nb] = append(batches[k%nb], i)
+	}
+	var wg sync.WaitGroup
+	for b, idxs := range batches {
+		// one solver process per batch: shared definitions at top level, one push/pop scope per query
+		file := filepath.Join(dir, fmt.Sprintf("batch%02d.smt2", b))
+		text, nodes := buildBatchText(ex.assumes, qs, idxs, timeout, false)
 		os.WriteFile(file, []byte(text), 0o644)
-		res[i].File = file
+		for k, i := range idxs {
+			res[i].Nodes = nodes[k]
+			res[i].File = file
+		}
 		var file5 string
 		if cross {
-			file5 = filepath.Join(dir, fmt.Sprintf("q%03d.cvc5.smt2", i))
-			os.WriteFile(file5, []byte(buildQueryText(ex.assumes, q.cond, true)), 0o644)
+			file5 = filepath.Join(dir, fmt.Sprintf("batch%02d.cvc5.smt2", b))
+			t5, _ := buildBatchText(ex.assumes, qs, idxs, timeout, true)
+			os.WriteFile(file5, []byte(t5), 0o644)
 		}
 		wg.Add(1)
-		go func(i int, file, file5 string) {
+		go func(idxs []int, file, file5 string) {
 			defer wg.Done()
-			sem <- struct{}{}
-			defer func() { <-sem }()
-			t0 := time.Now()
-			v, rest := runSolverFile(solver, file, timeout)
-			res[i].Verdict = v
-			res[i].Secs = time.Since(t0).Seconds()
-			if v == "sat" {
-				res[i].Model = parseModel(rest)
+			ans := runBatch(solver, file, timeout, len(idxs))
+			for k, i := range idxs {
+				res[i].Verdict = ans[k].verdict
+				res[i].Secs = ans[k].secs
+				if ans[k].verdict == "sat" {
+					res[i].Model = parseModel(ans[k].rest)
+				}
 			}
-			if cross && (v == "sat" || v == "unsat") {
+			if cross {
 				for _, other := range []string{"z3-new", "cvc5"} {
 					f := file
 					if other == "cvc5" {
 						f = file5
 					}
-					v2, _ := runSolverFile(other, f, timeout)
-					if (v2 == "sat" || v2 == "unsat") && v2 != v {
-						res[i].Verdict = "error"
-						res[i].Solver = fmt.Sprintf("DISAGREEMENT %s=%s %s=%s", solver, v, other, v2)
-					} else {
-						res[i].Solver += "," + other + "=" + v2
+					a2 := runBatch(other, f, timeout, len(idxs))
+					for k, i := range idxs {
+						v, v2 := res[i].Verdict, a2[k].verdict
+						if (v == "sat" || v == "unsat") && (v2 == "sat" || v2 == "unsat") && v != v2 {
+							res[i].Verdict = "error"
+							res[i].Solver = fmt.Sprintf("DISAGREEMENT %s=%s %s=%s", solver, v, other, v2)
+						} else {
+							res[i].Solver += "," + other + "=" + v2
+						}
 					}
 				}
 			}
-		}(i, file, file5)
+		}(idxs, file, file5)
 	}
 	wg.Wait()
 	return res
+}
+
+func buildBatchText(assumes []*T, qs []Query, idxs []int, timeout time.Duration, cvc5 bool) (string, []int) {
+	p := newPrinter()
+	p.cvc5 = cvc5
+	var out strings.Builder
+	if cvc5 {
+		out.WriteString("(set-logic ALL)\n(set-option :produce-models true)\n(set-option :incremental true)\n")
+		fmt.Fprintf(&out, "(set-option :tlimit-per %d)\n", timeout.Milliseconds())
+	} else {
+		fmt.Fprintf(&out, "(set-option :timeout %d)\n", timeout.Milliseconds())
+	}
+	out.WriteString(smtPrelude)
+	p.declVars(0)
+	for _, a := range assumes {
+		r := p.ref(a)
+		fmt.Fprintf(p.sb, "(assert %s)\n", r)
+	}
+	var gv strings.Builder
+	gv.WriteString("(get-value (")
+	n := 0
+	for _, v := range vars {
+		gv.WriteString(v.name)
+		gv.WriteByte(' ')
+		n++
+	}
+	if n == 0 {
+		gv.WriteString("true")
+	}
+	gv.WriteString("))\n")
+	nodes := make([]int, len(idxs))
+	for k, i := range idxs {
+		r := p.ref(qs[i].cond)
+		nodes[k] = len(p.defined)
+		fmt.Fprintf(p.sb, "(push 1)\n(assert %s)\n(echo \"vh-q %d\")\n(check-sat)\n%s(echo \"vh-end %d\")\n(pop 1)\n", r, k, gv.String(), k)
+	}
+	out.WriteString(p.sb.String())
+	return out.String(), nodes
+}
+
+type batchAns struct {
+	verdict string
+	rest    string
+	secs    float64
+}
+
+// runBatch runs one solver process over a batch file and splits its output per query. Any (error
+// line before the verdict of a query makes that query inconclusive.
+func runBatch(solver, file string, timeout time.Duration, n int) []batchAns {
+	ans := make([]batchAns, n)
+	for i := range ans {
+		ans[i].verdict = "unknown"
+	}
+	total := time.Duration(n)*timeout + 10*time.Second
+	ctx, cancel := context.WithTimeout(context.Background(), total)
+	defer cancel()
+	var cmd *exec.Cmd
+	switch solver {
+	case "z3", "z3-new":
+		cmd = exec.CommandContext(ctx, solver, file)
+	case "cvc5":
+		cmd = exec.CommandContext(ctx, "cvc5", file)
+	}
+	stdout, err := cmd.StdoutPipe()
+	if err != nil {
+		return ans
+	}
+	cmd.Stderr = cmd.Stdout
+	if err := cmd.Start(); err != nil {
+		return ans
+	}
+	sc := bufio.NewScanner(stdout)
+	sc.Buffer(make([]byte, 1<<20), 1<<28)
+	cur := -1
+	t0 := time.Now()
+	var rest strings.Builder
+	gotVerdict := false
+	preErr := false
+	for sc.Scan() {
+		l := sc.Text()
+		tl := strings.TrimSpace(l)
+		if strings.HasPrefix(tl, "vh-q ") || strings.HasPrefix(tl, "\"vh-q ") {
+			fmt.Sscanf(strings.Trim(tl, "\""), "vh-q %d", &cur)
+			t0 = time.Now()
+			rest.Reset()
+			gotVerdict = false
+			continue
+		}
+		if strings.HasPrefix(tl, "vh-end ") || strings.HasPrefix(tl, "\"vh-end ") {
+			if cur >= 0 && cur < n {
+				ans[cur].rest = rest.String()
+			}
+			cur = -1
+			continue
+		}
+		if cur < 0 {
+			if strings.HasPrefix(tl, "(error") {
+				preErr = true // an error outside any query scope (declarations / assumptions): nothing can be trusted
+			}
+			continue
+		}
+		if !gotVerdict {
+			switch tl {
+			case "sat", "unsat", "unknown":
+				ans[cur].verdict = tl
+				ans[cur].secs = time.Since(t0).Seconds()
+				gotVerdict = true
+				continue
+			case "timeout":
+				ans[cur].verdict = "unknown"
+				ans[cur].secs = time.Since(t0).Seconds()
+				gotVerdict = true
+				continue
+			}
+			if strings.HasPrefix(tl, "(error") {
+				ans[cur].verdict = "error"
+				ans[cur].secs = time.Since(t0).Seconds()
+				gotVerdict = true
+			}
+			continue
+		}
+		rest.WriteString(l)
+		rest.WriteByte('\n')
+	}
+	cmd.Wait()
+	if preErr {
+		for i := range ans {
+			ans[i].verdict = "error"
+		}
+	}
+	return ans
 }
